@@ -2,4 +2,5 @@ pub mod c01;
 pub mod c03;
 pub mod c04;
 pub mod c14;
+pub mod c19;
 pub mod c20;
